@@ -525,6 +525,36 @@ pub fn c10_formatted(s: &vt100::Screen) -> Option<Failure> {
     None
 }
 
+/// C10, "so state_formatted / state_diff reproduce all six": cursor visibility travels with
+/// contents_formatted / contents_diff — at any scrollback offset, on either screen
+pub fn c10_state(s: &vt100::Screen, p: Option<&vt100::Screen>) -> Option<Failure> {
+    let six = |x: &vt100::Screen| format!("{}{}", u8::from(x.hide_cursor()), crate::modes_str(x));
+    let mut recv = fresh_like(s);
+    recv.process(&s.state_formatted());
+    if six(recv.screen()) != six(s) {
+        return fail("C10", "state_formatted-modes", format!("state_formatted: got {} want {}", six(recv.screen()), six(s)));
+    }
+    let mut recv = fresh_like(s);
+    recv.process(&s.contents_formatted());
+    if recv.screen().hide_cursor() != s.hide_cursor() {
+        return fail("C10", "contents_formatted-visibility", format!("contents_formatted: cursor hidden {} want {}", recv.screen().hide_cursor(), s.hide_cursor()));
+    }
+    if let Some(p) = p {
+        if p.size() == s.size() {
+            let mut recv = fresh_like(p);
+            recv.process(&p.state_formatted());
+            if six(recv.screen()) != six(p) {
+                return None; // reported for p itself
+            }
+            recv.process(&s.state_diff(p));
+            if six(recv.screen()) != six(s) {
+                return fail("C10", "state_diff-modes", format!("state_diff from {}: got {} want {}", six(p), six(recv.screen()), six(s)));
+            }
+        }
+    }
+    None
+}
+
 /// C10: input_mode_diff(prev) on a parser whose modes equal prev's reproduces the current ones;
 /// empty iff no mode differs
 pub fn c10_diff(p: &vt100::Screen, s: &vt100::Screen) -> Option<Failure> {
